@@ -17,11 +17,19 @@ BINARY_PROFILES = ["dev"]
 FINALS = [("42", "42"), ('"s t"', '"s t"'), ("null", "-"), ("[1, 2]", "[1, 2]"), ("let zz = 1;", "*"), ("true", "true"), ("'c'", "'c'"), ("1.5", "1.5"),
           ('puts("tail")', "-"), ("if false { 1 }", "-"), ("3 * 4", "12"), ("map {}", "map {}"), ("fn() { 1 }", "<closure>"), ("len", "<built-in function len>")]
 ERR_FINALS = ["1 / 0", "[1][5]", "undefined_name_q", "len(1)", "1 +"]
-ARGVS = [[], ["a"], ["a", "b c"], ["é", "日本"], ["--", "-x", "--flag"], ["1", "2", "3", "4"]]
+ARGVS = [[], ["a"], ["a", "b c"], ["é", "日本"], ["--", "-x", "--flag"], ["1", "2", "3", "4"], ["first", "--", "-x", "--y"], ["one", "two", "--", "-x"], ["a", "--", "--"], ["", "x"]]
 
 
 def hx(s):
     return s.encode("utf-8").hex()
+
+
+def positional(argv):
+    """what the program sees: the first `--` is the separator the command line parser consumes; later ones are ordinary arguments"""
+    if "--" in argv:
+        k = argv.index("--")
+        return argv[:k] + argv[k + 1:]
+    return list(argv)
 
 
 def nontrivial(c):
@@ -76,7 +84,7 @@ def cases(ctx):
         f = disp if disp in ("-", "*") else hx(disp)
         if err:
             f = "-"
-        line = f"cli F={f} E={'t' if err and not diag else 'f'} D={'t' if diag else 'f'} A={','.join(hx(a) for a in argv if a != '--')} P={hx(src)}"
+        line = f"cli F={f} E={'t' if err and not diag else 'f'} D={'t' if diag else 'f'} A={','.join(hx(a) for a in positional(argv))} P={hx(src)}"
         out.append(Case(line, ("error-final" if err else "value-final",), extra={"src": src, "argv": argv, "final": fin}))
     return out
 
@@ -126,8 +134,8 @@ def run_one(exe, scratch, idx, c):
     enc = lambda xs: "?" if xs is None else ",".join(hx(x) for x in xs)
     if diag1:
         # nothing ran: argv cannot be observed
-        a1 = ["p.p2"] + [a for a in argv if a != "--"]
-        a2 = [a for a in argv if a != "--"]
+        a1 = ["p.p2"] + positional(argv)
+        a2 = positional(argv)
     if a1 is not None and a1 and a1[0] == "p.p2":
         pass
     return f"same={'t' if same else 'f'} extra={hx(extra)} argvfile={enc(a1)} argvcmd={enc(a2)} shebang={'t' if sheb else 'f'} gate={'t' if gate else 'f'}"
